@@ -156,6 +156,10 @@ def instantiate(quants, ground, rounds=None, max_inst=4000):
                 decl, formals, body = DEFS[nm]
                 if decl.eq(t.decl()):
                     new.append(t == z3.substitute(body, *[(f, t.arg(k)) for k, f in enumerate(formals)]))
+        # x mod 2**k lies in [0, 2**k)
+        for t in fresh:
+            if t.decl().name() == 'pmod' and t.num_args() == 2 and z3.is_app(t.arg(1)) and t.arg(1).decl().name() == 'pow2':
+                new.append(z3.And(t >= 0, t < t.arg(1)))
         # quantifier instantiation by matching (patterns are indexed by their head symbol)
         fresh_ids = {t.get_id() for t in fresh}
         for q, n, pats in qinfo:
